@@ -16,6 +16,7 @@ impl Parseable for FormatSpecial {
                     literal("a").value(FormatSpecial::Alarm),
                     literal("b").value(FormatSpecial::Backspace),
                     literal("c").value(FormatSpecial::Clear),
+                    literal("f").value(FormatSpecial::Form),
                     literal("n").value(FormatSpecial::Newline),
                     literal("r").value(FormatSpecial::CarriageReturn),
                     literal("t").value(FormatSpecial::TabHorizontal),
